@@ -237,7 +237,11 @@ def q(x) -> str:
     elif isinstance(x, int):
         f = Fraction(x)
     else:
-        f = Fraction(*float(x).as_integer_ratio())
+        x = float(x)
+        if x != x or x in (float("inf"), float("-inf")):
+            # a non-finite value produced by the code under test is an OBSERVATION (it never equals a model value), not a harness error
+            return "nan" if x != x else ("inf" if x > 0 else "-inf")
+        f = Fraction(*x.as_integer_ratio())
     return f"{f.numerator}/{f.denominator}"
 
 
@@ -249,12 +253,15 @@ def cq(z):
 def unq(s) -> Fraction:
     if isinstance(s, (int,)):
         return Fraction(s)
+    if s in ("nan", "inf", "-inf"):
+        raise ValueError(f"non-finite value {s} where an exact rational was expected")
     a, _, b = s.partition("/")
     return Fraction(int(a), int(b or 1))
 
 
 def uncq(p) -> complex:
-    return complex(float(unq(p[0])), float(unq(p[1])))
+    f = lambda t: float(t) if t in ("nan", "inf", "-inf") else float(unq(t))
+    return complex(f(p[0]), f(p[1]))
 
 
 # ---------------------------------------------------------------------------------------------
